@@ -253,10 +253,21 @@ class Builder:
                 blk['g'][ch] = self.gen_ext(f, lv) if k == 'ext' else self.gen_arb(f, lv)
             if self.with_rf and r.random() < 0.45:
                 use = r.choice(RF_USES + ['excitation', 'refocusing'])
-                shape = r.choice(['block', 'sinc', 'sinc', 'lobes'])
+                shape = r.choice(['block', 'block', 'sinc', 'sinc', 'lobes'])
                 blk['rf'] = {'shape': shape, 'use': use, 'dur': r.randint(2, 25) * 10, 'delay': r.choice([0, 0, 10, 35]),
                              'tbw': r.choice([2, 4]), 'center_pos': r.choice([0.5, 0.5, 0.25, 0.7]),
                              'flip': r.choice([0.3, 1.5707963267948966, 3.141592653589793])}
+                if shape == 'block':
+                    # every other block pulse repeats the B1 AMPLITUDE of the previous one with another duration
+                    # (flip and duration both doubled / halved: byte-identical signal samples, different time axis)
+                    prev = getattr(self, 'prev_block_rf', None)
+                    if prev is not None and r.random() < 0.6:
+                        pf, pd = prev
+                        if pd * 2 <= 600 and pf * 2 <= 3.2 and r.random() < 0.7:
+                            blk['rf']['flip'], blk['rf']['dur'] = pf * 2, pd * 2
+                        elif pd % 20 == 0:
+                            blk['rf']['flip'], blk['rf']['dur'] = pf / 2, pd // 2
+                    self.prev_block_rf = (blk['rf']['flip'], blk['rf']['dur'])
                 if shape == 'lobes':
                     # composite pulse: 2-3 lobes of EQUAL peak amplitude and different length (in RF rasters),
                     # separated by lower stretches: the maximum is reached on an unevenly distributed sample set
